@@ -29,6 +29,9 @@ def nchunks(tier):
 
 
 def _decl(letter, rev, default, envbound):
+    if letter == "digit":
+        return optgen.D([optgen.T(b"tog", b"4", rev=rev, default=default, env=ENVN if envbound else None),
+                         optgen.T(b"uu", b"u"), optgen.O(b"opt", b"p")], pos=None)
     return optgen.D([optgen.T(b"tog", b"t" if letter else None, rev=rev, default=default,
                               env=ENVN if envbound else None),
                      optgen.T(b"uu", b"u"), optgen.O(b"opt", b"p")], pos=None)
@@ -36,7 +39,9 @@ def _decl(letter, rev, default, envbound):
 
 def _alphabet(letter):
     a = [b"--tog", b"--no-tog", b"--uu", b"--opt=v", b"-u"]
-    if letter:
+    if letter == "digit":
+        a += [b"-4", b"-44", b"-4u", b"-u4"]
+    elif letter:
         a += [b"-t", b"-tt", b"-tu", b"-ut"]
     return a
 
@@ -70,7 +75,7 @@ def gen(tier, seed, chunk, nch):
     cases = []
     k = 0
     maxlen = 3 if tier == "quick" else 4
-    for letter in (True, False):
+    for letter in (True, False, "digit"):
         for rev in (True, False):
             for default in (None, 0, 1, 3):
                 for envw in (None, b"TRUE", b"no", b""):
@@ -100,7 +105,7 @@ def gen(tier, seed, chunk, nch):
     # mixed random: longer sequences separated by other arguments
     rng2 = random.Random("c11-%d-%d" % (seed, chunk))
     for _ in range((4000 if tier == "quick" else 60000) // nch):
-        letter, rev = rng2.random() < 0.7, rng2.random() < 0.5
+        letter, rev = rng2.choice([True, True, False, "digit"]), rng2.random() < 0.5
         default = rng2.choice([None, 0, 1, 3])
         envw = rng2.choice([None, None, rng2.choice(TRUTHY + FALSY), rng2.choice(words)])
         d = _decl(letter, rev, default, envw is not None)
@@ -147,7 +152,7 @@ def evaluate(case, lines, S):
     if case.get("reuse") is not None and "reuse" in case:
         S.counters["second-parse-on-the-same-parser"] += 1
     w = env.get(ENVN)
-    occ = sum(1 for t in argv if t in (b"--tog", b"-t", b"-tt", b"-tu", b"-ut", b"--no-tog"))
+    occ = sum(1 for t in argv if t in (b"--tog", b"-t", b"-tt", b"-tu", b"-ut", b"--no-tog", b"-4", b"-44", b"-4u", b"-u4"))
     S.counters["decl:letter=%s:rev=%s:default=%s" % tuple(case["dv"][:3])] += 1
     S.counters["part:" + case["dv"][3]] += 1
     S.counters["word:" + _wclass(w)] += 1
